@@ -2272,9 +2272,12 @@ ok:
           start over again.
         */
     case SSL_HS_SERVER_HELLO:
+        /* Re-send the user extensions backed up from the first ClientHello
+           (passing NULL dropped them from the hello that counts and lost
+           the backup copy: psAddUserExtToSession(ssl, NULL)). */
         rc = matrixSslEncodeClientHello(
                 ssl, out, ssl->cipherSpec,
-                ssl->cipherSpecLen, requiredLen, NULL, &options);
+                ssl->cipherSpecLen, requiredLen, ssl->userExt, &options);
         break;
 # endif /* USE_DTLS */
     }
